@@ -1,9 +1,77 @@
+import GlyProofs.Smiles.Certify
 import GlyProofs.Front.WalkDen
 /-
-  C01 — Glycosidic assembly yields exactly the molecule the linkages describe.  (Property theorems only; placeholder
-  until the splice algebra lands – see DESIGN.md.)
+  C01 — Glycosidic assembly yields exactly the molecule the linkages describe. (Property theorems only.)
 -/
 namespace Gly.Props.C01
-open Gly
-theorem C01_placeholder_walk (w : WalkCfg) (s : Start) : walkStart w s = denStart w s := walkStart_eq_denStart w s
+open Gly Gly.Smi Gly.Asm
+
+/-- The graft lemma (full statement in `Gly.Smi.graft`): replacing a leaf marker atom of a SMILES by a closed block that
+    starts with an atom and whose ring labels are not open at that point yields the SMILES of the graft – atoms of the
+    parent with the marker replaced by the block's atoms, bond events of both carried over as written (so every ordered
+    neighbour list and every stereo mark of both residues is unchanged), one new bond from the marker's parent carbon to
+    the block's first atom. Unbounded: any parent, any block, any position. -/
+theorem C01_graft (pre post C' : List Tok) (M c0 : Atom) (S A c : St) (p : Nat)
+    (hpre : run St.init pre = some S) (hp : S.prev = some p)
+    (hA : run St.init (pre ++ [Tok.atom M] ++ post) = some A)
+    (hleaf : post = [] ∨ ∃ post', post = Tok.rpar :: post')
+    (hc : run St.init (Tok.atom c0 :: C') = some c) (hclosed : c.stack = [] ∧ c.opens = [] ∧ c.pend = none)
+    (hlab : ∀ l ∈ labelsOf C', lookupLabel l S.opens = none) :
+    ∃ B as es,
+      run St.init (pre ++ (Tok.atom c0 :: C') ++ post) = some B ∧
+      A.atoms = S.atoms ++ [M] ++ as ∧
+      A.evs = S.evs ++ [Ev.bond p S.atoms.length S.pend] ++ es ∧
+      B.atoms = S.atoms ++ c.atoms ++ as ∧
+      B.evs = S.evs ++ [Ev.bond p S.atoms.length S.pend] ++ c.evs.map (Ev.map (· + S.atoms.length)) ++
+                es.map (Ev.map (ren S.atoms.length (c.atoms.length - 1))) ∧
+      B.stack = A.stack.map (ren S.atoms.length (c.atoms.length - 1)) ∧
+      B.opens = A.opens.map (shiftO (ren S.atoms.length (c.atoms.length - 1))) ∧
+      B.pend = A.pend :=
+  graft pre post C' M c0 S A c p hpre hp hA hleaf hc hclosed hlab
+
+/-- The result of a graft is a finished molecule exactly when the marked parent was (nothing is left open by the block). -/
+theorem C01_graft_closed (A B : St) (N d : Nat)
+    (hs : B.stack = A.stack.map (ren N d)) (ho : B.opens = A.opens.map (shiftO (ren N d))) (hp : B.pend = A.pend) :
+    B.closed = A.closed := by
+  simp [St.closed, hs, ho, hp]
+
+/-- Soundness of the decidable per-splice certificate the driver evaluates on **every real merge step**
+    (character-level Model of `merge_int` ↔ token-level graft theorem). -/
+theorem C01_certified_splice (sym me block result : List Char) (h : certifySplice sym me block result = true) :
+    ∃ pre post C' M c0 S c p,
+      tokenize me = some (pre ++ [Tok.atom M] ++ post) ∧
+      tokenize block = some (Tok.atom c0 :: C') ∧
+      tokenize result = some (pre ++ (Tok.atom c0 :: C') ++ post) ∧
+      run St.init pre = some S ∧ S.prev = some p ∧ run St.init (Tok.atom c0 :: C') = some c ∧
+      ∀ A, run St.init (pre ++ [Tok.atom M] ++ post) = some A →
+        ∃ B as es, run St.init (pre ++ (Tok.atom c0 :: C') ++ post) = some B ∧
+          A.atoms = S.atoms ++ [M] ++ as ∧
+          A.evs = S.evs ++ [Ev.bond p S.atoms.length S.pend] ++ es ∧
+          B.atoms = S.atoms ++ c.atoms ++ as ∧
+          B.evs = S.evs ++ [Ev.bond p S.atoms.length S.pend] ++ c.evs.map (Ev.map (· + S.atoms.length)) ++
+                    es.map (Ev.map (ren S.atoms.length (c.atoms.length - 1))) ∧
+          B.stack = A.stack.map (ren S.atoms.length (c.atoms.length - 1)) ∧
+          B.opens = A.opens.map (shiftO (ren S.atoms.length (c.atoms.length - 1))) ∧
+          B.pend = A.pend :=
+  certifySplice_sound sym me block result h
+
+/-- Non-vacuity: the boundary strings RDKit writes for `Man(a1-3)Man` (marked parent, shifted child) satisfy the
+    hypotheses, and the character-level splice of the Model is the certified one. -/
+theorem C01_example :
+    let me := "O1C(O)[C@@H](O)[C@@H]([Ga])[C@H](O)[C@H]1CO".toList
+    let child := "O[C@H]2O[C@H](CO)[C@@H](O)[C@H](O)[C@@H]2O".toList
+    certifySplice "Ga".toList me child (subMarker "Ga".toList child (me.length + 1) me) = true := by
+  decide +kernel
+
+/-- The hypothesis on ring labels is necessary, and the certificate rejects a clash: a child that re-uses the label
+    the bicyclic parent still has open at the splice point (the defect repaired in `merge_int`, D6). -/
+theorem C01_label_clash_rejected :
+    let me := "O1C2OC[C@@H]1[C@@H](O)[C@H]([Ga])[C@H]2O".toList
+    let child := "O[C@H]2O[C@H](CO)[C@@H](O)[C@H](O)[C@@H]2O".toList
+    certifySplice "Ga".toList me child (subMarker "Ga".toList child (me.length + 1) me) = false := by
+  decide +kernel
+
+/-- The tree the assembly consumes is the written one (C03). -/
+theorem C01_tree_is_written (w : WalkCfg) (s : Start) : walkStart w s = denStart w s := walkStart_eq_denStart w s
+
 end Gly.Props.C01
